@@ -10,7 +10,7 @@ from valjean.cosette.depgraph import DepGraph
 from . import runtime
 
 _MODS = None
-OUTCOMES = ('ok', 'raise', 'fail', 'none', 'notpair', 'badstatus', 'badupdate', 'triple', 'clobber')
+OUTCOMES = ('ok', 'raise', 'fail', 'none', 'notpair', 'badstatus', 'badupdate', 'triple', 'clobber', 'clobber-next')
 FINAL = (TaskStatus.DONE, TaskStatus.FAILED, TaskStatus.SKIPPED)
 
 
@@ -66,6 +66,11 @@ class Probe(Task):
             return 42, TaskStatus.DONE
         if out == 'triple':
             return upd, TaskStatus.DONE, 0
+        if out == 'clobber-next':
+            # ... or the entry of ANOTHER task (t<i+1>, cyclically)
+            num = int(self.name[1:])
+            other = f't{num + 1}' if f't{num + 1}' in getattr(env, 'dictionary', env) or num == 0 else 't0'
+            return {other: 5}, TaskStatus.DONE
         if out == 'clobber':
             # a well-formed pair whose update replaces the task's own entry by something that is not a mapping
             return {self.name: 5}, TaskStatus.DONE
@@ -267,7 +272,8 @@ def oracle(exe, cfg):
             if sta not in FINAL:
                 bad.append((f'C01|dep-not-final|{wtag}', f'{name} started while dependency {dname} was {status_name(ent or {})}'))
                 continue
-            final_now = har.env.dictionary.get(dname, {}).get('status')
+            final_ent = har.env.dictionary.get(dname, {})
+            final_now = final_ent.get('status') if isinstance(final_ent, dict) else None
             if kind == 'quiescent' and final_now != sta:
                 bad.append((f'C01|dep-status-not-final|{wtag}',
                             f'{name} started when {dname} showed {status_name(ent)}, but {dname} ended {status_name({"status": final_now})}: '
